@@ -407,7 +407,7 @@ class Report:
             replay_path = os.path.join(REPLAYS, "%s-%s.json" % (self.prop, h))
             with open(replay_path, "w") as f:
                 json.dump({"property": self.prop, "signature": sig, "detail": detail,
-                           "all_signatures": [s for s, _ in self.violations[:50]],
+                           "all_signatures": [s for s, _ in self.violations[:2000]],
                            "seed": seed(), "tier": self.tier}, f, indent=1, default=str)
         cov = {
             "evaluations": self.evaluations,
